@@ -6,12 +6,12 @@
 package simnet
 
 import (
-	"strings"
 	"errors"
 	"fmt"
 	"net"
 	"net/netip"
 	"os"
+	"syscall"
 	"time"
 
 	"golang.org/x/net/bpf"
@@ -84,7 +84,7 @@ type Script interface {
 
 type Fault struct {
 	Op    string `json:"op"`
-	K     int    `json:"k"` // k-th call of Op in the execution (1-based)
+	K     int    `json:"k"`     // k-th call of Op in the execution (1-based)
 	Class string `json:"class"` // fatal | deadline | zero
 }
 
@@ -95,17 +95,17 @@ type Call struct {
 }
 
 type Net struct {
-	Script     Script
-	Faults     []Fault
-	FiltersOff bool
-	EpsNs      int64 // cost of one Read
-	Sources    []*Source
-	Sinks      []*Sink
-	Ledger     []Event
-	Order      []OrderEv // global order of sends and reads (clock-independent)
+	Script      Script
+	Faults      []Fault
+	FiltersOff  bool
+	EpsNs       int64 // cost of one Read
+	Sources     []*Source
+	Sinks       []*Sink
+	Ledger      []Event
+	Order       []OrderEv // global order of sends and reads (clock-independent)
 	NoPortCheck bool
-	Calls      []Call
-	counts     map[string]int
+	Calls       []Call
+	counts      map[string]int
 	// SACK: real listeners whose accepted connections trigger a synthesized SYN-ACK
 	Listeners []*Listener
 	// NoOutgoingLoop disables delivery of the process's own probes to capture handles
@@ -169,39 +169,45 @@ func (n *Net) fault(op string, handle int) string {
 // ---- sink --------------------------------------------------------------------------
 
 type Sink struct {
-	ID     int
-	Creator int // managed thread that constructed the sink
-	n      *Net
-	Addr   netip.Addr
-	Closes int
+	ID            int
+	Creator       int // managed thread that constructed the sink
+	n             *Net
+	Addr          netip.Addr
+	Closes        int
 	UseAfterClose int
-	Writes int
+	Writes        int
 	// PortNotHeld: the first probes whose transport source port was not owned by any socket of this network namespace when
 	// they were sent (the port is the run's identifier on the wire and must stay reserved while the run is live); "proto:port"
 	PortNotHeld []string
 }
 
-// portHeld looks the local port up in the kernel's socket tables of the current network namespace.
-func portHeld(proto uint8, port uint16) bool {
-	files := []string{"/proc/net/udp", "/proc/net/udp6"}
+// portHeld asks the kernel whether some socket of this network namespace owns the local port: an attempt to bind it
+// ourselves fails with "address in use" exactly then (no SO_REUSEADDR; the probe socket is closed at once).
+func portHeld(proto uint8, src netip.Addr, port uint16) bool {
+	fam, typ := syscall.AF_INET, syscall.SOCK_DGRAM
 	if proto == refcodec.ProtoTCP {
-		files = []string{"/proc/net/tcp", "/proc/net/tcp6"}
+		typ = syscall.SOCK_STREAM
 	}
-	needle := fmt.Sprintf(":%04X ", port)
-	for _, f := range files {
-		b, err := os.ReadFile(f)
-		if err != nil {
-			return true // cannot tell: never alarm
-		}
-		for _, line := range strings.Split(string(b), "\n")[1:] {
-			// "  sl  local_address rem_address ...": the local address is the second field
-			fs := strings.Fields(line)
-			if len(fs) > 2 && strings.HasSuffix(fs[1]+" ", needle) {
-				return true
-			}
-		}
+	var sa syscall.Sockaddr
+	if src.Is4() {
+		sa = &syscall.SockaddrInet4{Port: int(port), Addr: src.As4()}
+	} else {
+		fam = syscall.AF_INET6
+		sa = &syscall.SockaddrInet6{Port: int(port), Addr: src.As16()}
 	}
-	return false
+	fd, err := syscall.Socket(fam, typ|syscall.SOCK_CLOEXEC, 0)
+	if err != nil {
+		return true // cannot tell: never alarm
+	}
+	defer syscall.Close(fd)
+	if fam == syscall.AF_INET6 {
+		syscall.SetsockoptInt(fd, syscall.IPPROTO_IPV6, syscall.IPV6_V6ONLY, 1)
+	}
+	err = syscall.Bind(fd, sa)
+	if err == nil {
+		return false
+	}
+	return err == syscall.EADDRINUSE || err != syscall.EADDRNOTAVAIL // any other refusal: cannot tell
 }
 
 func (n *Net) newSink(addr netip.Addr) (packets.Sink, error) {
@@ -234,7 +240,7 @@ func (s *Sink) WriteTo(buf []byte, addr netip.AddrPort) error {
 	n.Ledger = append(n.Ledger, ev)
 	n.Order = append(n.Order, OrderEv{"tx", s.ID, s.ID})
 	if err == nil && (p.Proto == refcodec.ProtoUDP || p.Proto == refcodec.ProtoTCP) && s.Writes == 1 && !n.NoPortCheck {
-		if !portHeld(p.Proto, p.SrcPort) && len(s.PortNotHeld) < 4 {
+		if !portHeld(p.Proto, p.Src, p.SrcPort) && len(s.PortNotHeld) < 4 {
 			s.PortNotHeld = append(s.PortNotHeld, fmt.Sprintf("%d:%d", p.Proto, p.SrcPort))
 		}
 	}
@@ -330,17 +336,17 @@ func (n *Net) deliver(raw []byte, m Meta, outgoing bool) {
 // ---- source ------------------------------------------------------------------------
 
 type Source struct {
-	ID       int
-	n        *Net
-	queue    [][]byte
-	qmeta    []Meta
-	deadline int64 // virtual ns; -1 none
-	closed   bool
-	Closes   int
+	ID            int
+	n             *Net
+	queue         [][]byte
+	qmeta         []Meta
+	deadline      int64 // virtual ns; -1 none
+	closed        bool
+	Closes        int
 	UseAfterClose int
-	vm       *bpf.VM
-	Filters  []packets.PacketFilterSpec
-	Reads    int
+	vm            *bpf.VM
+	Filters       []packets.PacketFilterSpec
+	Reads         int
 }
 
 func (n *Net) newSource() (packets.Source, error) {
@@ -486,8 +492,8 @@ func (s *Source) SetPacketFilter(spec packets.PacketFilterSpec) error {
 // SynAckSpec says how the synthesized SYN-ACK of an accepted connection looks.
 type SynAckSpec struct {
 	Enabled       bool   `json:"enabled"` // false: the handshake is never captured
-	ISN           uint32 `json:"isn"`      // server sequence number in the SYN-ACK
-	AckNum        uint32 `json:"ack"`      // acknowledgement number (= client ISN+1): becomes the driver's localInitSeq
+	ISN           uint32 `json:"isn"`     // server sequence number in the SYN-ACK
+	AckNum        uint32 `json:"ack"`     // acknowledgement number (= client ISN+1): becomes the driver's localInitSeq
 	SackPermitted bool   `json:"sack_permitted"`
 	Timestamps    bool   `json:"timestamps"`
 	DelayNs       int64  `json:"delay_ns"`
@@ -496,9 +502,9 @@ type SynAckSpec struct {
 	WrongFirst    bool   `json:"wrong_first,omitempty"` // precede with a SYN-ACK of another flow
 	NoiseKind     string `json:"noise_kind,omitempty"`  // precede the genuine SYN-ACK with mutations of it (see Listener.Mutate)
 	NoiseArg      int    `json:"noise_arg,omitempty"`
-	NoiseForeign  bool   `json:"noise_foreign,omitempty"` // the mutated SYN-ACKs belong to another flow (client port differs)
-	LateCopyMs    int    `json:"late_copy_ms,omitempty"`  // one more copy of the genuine SYN-ACK this long after the first (a retransmission seen during the probe phase)
-	FloodCount    int    `json:"flood_count,omitempty"`   // SYN-ACKs of other connections to the same target, ...
+	NoiseForeign  bool   `json:"noise_foreign,omitempty"`  // the mutated SYN-ACKs belong to another flow (client port differs)
+	LateCopyMs    int    `json:"late_copy_ms,omitempty"`   // one more copy of the genuine SYN-ACK this long after the first (a retransmission seen during the probe phase)
+	FloodCount    int    `json:"flood_count,omitempty"`    // SYN-ACKs of other connections to the same target, ...
 	FloodEveryMs  int    `json:"flood_every_ms,omitempty"` // ... this far apart, starting when the connection is accepted
 }
 
@@ -506,14 +512,14 @@ type Listener struct {
 	L        *net.TCPListener
 	Addr     netip.AddrPort
 	Spec     SynAckSpec
-	Accepted []netip.AddrPort // remote (client) address of each accepted connection
+	Accepted []netip.AddrPort  // remote (client) address of each accepted connection
 	ConnAck  map[uint16]uint32 // client port -> acknowledgement number of that connection's SYN-ACK (its sequence base)
 	conns    []net.Conn
 	// Client is filled when the first connection is accepted
 	OnAccept func(n *Net, l *Listener, client netip.AddrPort)
 	// Mutate returns the noise variants of a packet (installed by the harness)
-	Mutate func(kind string, arg int, raw []byte) [][]byte
-	Expect int // number of connections to wait for before polling stops (default 1; <0: never polled while the run reads)
+	Mutate   func(kind string, arg int, raw []byte) [][]byte
+	Expect   int // number of connections to wait for before polling stops (default 1; <0: never polled while the run reads)
 	patience time.Duration
 }
 
